@@ -406,7 +406,7 @@ pub fn parts() -> Vec<Box<dyn PartDyn>> {
         Box::new(Part::<CaseA> {
             name: "complete",
             rule: "histories in which every tag start..start+n is confirmed exactly once (single or multiple, ack or nack, any arrival order, per-call early iterator drops), all enumerated for n<=4 (quick) / n<=5 (thorough) plus random n<40; oracle: reference model (first covering confirmation decides the outcome, emission as soon as the prefix is complete); non-trivial = an out-of-order single is later covered by a multiple, or an iterator is dropped with items pending; distinct by case hash",
-            cases: |t| t.pick(150_000, 6_000_000),
+            cases: |t| t.pick(500_000, 10_000_000),
             threads: 16,
             strategy: strat_a,
             exec: exec_a,
@@ -417,7 +417,7 @@ pub fn parts() -> Vec<Box<dyn PartDyn>> {
         Box::new(Part::<CaseB> {
             name: "arbitrary",
             rule: "arbitrary confirmations in a window around the expected tag (duplicates and stale tags included); safety oracle only: non-multiple, strictly consecutive, never backwards, never a tag that nothing received so far covers; non-trivial = contains a duplicate/stale confirmation and emitted something",
-            cases: |t| t.pick(100_000, 3_000_000),
+            cases: |t| t.pick(300_000, 6_000_000),
             threads: 16,
             strategy: strat_b,
             exec: exec_b,
